@@ -1,6 +1,7 @@
 CONSTANTS
  MaxN = 2
- Family = "edge"
+ PairN = 1
+ Family = "label"
 SPECIFICATION Spec
 INVARIANT EmitWitnesses
 INVARIANT FaithfulWithoutSep
